@@ -185,10 +185,9 @@ Theorem C09_constructor_rejects_partial :
 Proof. exact constructor_rejects_partial. Qed.
 Print Assumptions C09_constructor_rejects_partial.
 
-(* full statement of the constructor clause in terms of the *input* arrays; proved above: never
-   IndexError (all inputs) and ValueError when some state has no pair (sorted and unsorted input);
-   the only -inf case is proved relative to the sorted arrays (C09_constructor_rejects_partial),
-   its transport through the CSR re-sorting permutation is decided by correspondence + oracle *)
+(* full statement of the constructor clause in terms of the *input* arrays (sorted or unsorted distinct pairs):
+   ValueError exactly when some state has only -inf rewards among its pairs -- in particular no pair at all --
+   or beta is outside [0,1]; together with C09_constructor_no_index_error: never IndexError *)
 Definition C09_constructor_rejects_full : Prop :=
   forall n sidx aidx (R : list (ext Q)) Qm beta,
   shapes_ok n sidx aidx R Qm = true ->
@@ -196,6 +195,9 @@ Definition C09_constructor_rejects_full : Prop :=
   (mk_sa n sidx aidx R Qm beta = CValueError <->
      (exists s, (s < n)%nat /\ forall j, (j < length sidx)%nat -> getn sidx j = s -> gete R j = NegInf)
      \/ ~ (0 <= beta <= 1)).
+Theorem C09_constructor_rejects : C09_constructor_rejects_full.
+Proof. exact constructor_rejects_full. Qed.
+Print Assumptions C09_constructor_rejects.
 
 (* form conversion: decided by correspondence + oracle only *)
 Definition C09_to_sa_to_product_roundtrip_full : Prop :=
